@@ -726,6 +726,49 @@ class Interp:
         p.taken.append((cond, d))
         return d
 
+    def concretize(self, v, bits, limit=64):
+        """fork on every feasible value of a symbolic integer (used for small table indices)"""
+        if is_conc(v):
+            return v
+        p = self.path
+        x = as_bv(v, bits)
+        if p.idx < len(p.decisions):
+            val = p.decisions[p.idx]
+            p.idx += 1
+        else:
+            vals = []
+            s = self.solver
+            s.push()
+            try:
+                for a in self.assumptions:
+                    s.add(a)
+                for c in p.pc:
+                    s.add(c)
+                while len(vals) <= limit:
+                    r = s.check()
+                    if r == z3.unknown:
+                        raise ExecError("solver", "unknown while enumerating values")
+                    if r == z3.unsat:
+                        break
+                    val = s.model().eval(x, model_completion=True).as_long()
+                    vals.append(val)
+                    s.add(x != val)
+            finally:
+                s.pop()
+            if len(vals) > limit:
+                raise ExecError("budget", "more than %d feasible values for a concretised integer" % limit)
+            if not vals:
+                raise PathAbort()
+            vals.sort()
+            for other in vals[1:]:
+                self.pending.append(p.decisions + [other])
+            val = vals[0]
+            p.decisions.append(val)
+            p.idx += 1
+        p.pc.append(x == val)
+        p.taken.append((x == val, True))
+        return val
+
     def _branch_acond(self, c):
         if c.kind == "not":
             return not self._branch_acond(c.args[0])
